@@ -400,6 +400,9 @@ def handlers(emit, repo):
                 else:
                     rg.write_robots(path, b["L"], b["W"], b["moves"], b["rewards"], b["loose"],
                                     pr["tb"] / 1e6, pr["rb"] / 1e6, pr["lb"] / 1e6)
+                    if job.get("twice"):     # the same board objects written once more (a sweep over one board)
+                        rg.write_robots(path, b["L"], b["W"], b["moves"], b["rewards"], b["loose"],
+                                        pr["tb"] / 1e6, pr["rb"] / 1e6, pr["lb"] / 1e6)
                 d = cr.read_dict_from_file(path)
                 ev["keys"] = [str(k) for k in d.keys()]
             except Exception as exc:
@@ -511,7 +514,7 @@ def handlers(emit, repo):
                 elif op["e"] == "Main":
                     # every run of the command line gets a directory of its own, except a
                     # deliberate re-run ("again") with the same parameters in the same directory
-                    if not op.get("again"):
+                    if not op.get("again") and not (op.get("keep") and os.path.isdir(os.path.join(scratch, "inputs"))):
                         shutil.rmtree(os.path.join(scratch, "inputs"), ignore_errors=True)
                         os.makedirs(os.path.join(scratch, "inputs"))
                     before = listing(scratch)
